@@ -76,5 +76,37 @@ theorem equals_unknown_number_of_includes (r : Rfn) (x : Num) (hr : r ≠ .unref
     simp [equalsPre', Value.isNull, Payload.isNull, Payload.unmark1, Value.isKnown, Payload.isKnown, definitelyNotNull,
       hrange, hi, incFalse, Ty.hasDyn, hte]
 
+/-- the specification agrees: the refinement admits the infinity -/
+theorem covers_no_lower_bound (nl : Tri) (hi : Option Bound) (hnl : nl ≠ .t) (hhi : otherEndAbove hi = true) :
+    Covers ⟨.number, .unk (.num nl none hi)⟩ ⟨.number, .n (.inf true)⟩ = true := by
+  have h1 : (nl != Tri.t) = true := by cases nl <;> first | rfl | exact absurd rfl hnl
+  have h0 : Num.cmp (.inf true) (.inf true) = 0 := by decide
+  cases hi with
+  | none =>
+    simp [Covers, CoversG, Ty.matches, Payload.stripMarks, coversP, admits, Rfn.nullness, h1, rfnAdmitsKnown, loInside,
+      hiInside, pt, negInfB, posInfB, h0]
+    decide
+  | some b =>
+    simp only [otherEndAbove, decide_eq_true_eq] at hhi
+    simp [Covers, CoversG, Ty.matches, Payload.stripMarks, coversP, admits, Rfn.nullness, h1, rfnAdmitsKnown, loInside,
+      hiInside, pt, negInfB, h0]
+    split <;> exact decide_eq_true (by omega)
+
+theorem covers_no_upper_bound (nl : Tri) (lo : Option Bound) (hnl : nl ≠ .t) (hlo : otherEndBelow lo = true) :
+    Covers ⟨.number, .unk (.num nl lo none)⟩ ⟨.number, .n (.inf false)⟩ = true := by
+  have h1 : (nl != Tri.t) = true := by cases nl <;> first | rfl | exact absurd rfl hnl
+  have h0 : Num.cmp (.inf false) (.inf false) = 0 := by decide
+  cases lo with
+  | none =>
+    simp [Covers, CoversG, Ty.matches, Payload.stripMarks, coversP, admits, Rfn.nullness, h1, rfnAdmitsKnown, loInside,
+      hiInside, pt, negInfB, posInfB, h0]
+    decide
+  | some b =>
+    simp only [otherEndBelow, decide_eq_true_eq] at hlo
+    simp [Covers, CoversG, Ty.matches, Payload.stripMarks, coversP, admits, Rfn.nullness, h1, rfnAdmitsKnown, loInside,
+      hiInside, pt, posInfB, h0]
+    have hsw := NumCmp.cmp_swap b.v (.inf false)
+    split <;> exact decide_eq_true (by omega)
+
 end D01b
 end CtyModel
